@@ -367,7 +367,7 @@ func nearMissKey(r *rng.R, name string) string {
 }
 
 func runC09(c *ctx) {
-	c.Rule = "ellipsis-free templates over all node kinds (nesting <= 6, variables in scalar slots, list variables, ASCII variables with bounds) x assignments (total, partial, empty, with unknown keys, values of every accepted Go type) : FillVariables must equal direct construction with the values in place (String, Variables, Size, ToBytes), equal the model substitution, leave remaining variables in order, refuse exactly when the constructor refuses (out-of-domain values of 12 kinds), compose over every set partition of <= 4 keys (random ordered splits beyond), and keep the message header while filling. non-trivial = at least one key names a variable of the template; distinct by (template, keys, split, bad values) Also (rounds 4-8): near-miss unknown keys; a string fill value renames (21 names incl. T, F, type names); named-type and pointer values; every fill repeated through a message (refusal must agree); one shared 64-slot template per kind filled by eight goroutines with their own values. Also (round 9): text values that spell the name of the variable they fill or of another variable."
+	c.Rule = "ellipsis-free templates over all node kinds (nesting <= 6, variables in scalar slots, list variables, ASCII variables with bounds) x assignments (total, partial, empty, with unknown keys, values of every accepted Go type) : FillVariables must equal direct construction with the values in place (String, Variables, Size, ToBytes), equal the model substitution, leave remaining variables in order, refuse exactly when the constructor refuses (out-of-domain values of 12 kinds), compose over every set partition of <= 4 keys (random ordered splits beyond), and keep the message header while filling. non-trivial = at least one key names a variable of the template; distinct by (template, keys, split, bad values) Also (rounds 4-8): near-miss unknown keys; a string fill value renames (21 names incl. T, F, type names); named-type and pointer values; every fill repeated through a message (refusal must agree); one shared 64-slot template per kind filled by eight goroutines with their own values. Also (round 9): text values that spell the name of the variable they fill or of another variable. Also (round 10): two messages stamped from one template object and then filled are compared with direct construction after both exist; a stamped, filled and encoded message is stamped again and its first encoding re-read."
 	c.Assume = []string{"fill-in values are variable-free (as the property quantifies)", "direct construction = the repository's own factories called with the values in place"}
 	badKinds := []string{"neg", "big", "huge", "float", "nan", "str-nonascii", "str-long", "int-for-ascii", "struct", "nil", "bool", "f4-just-over", "f4-over", "f4-neg-over", "int-over-u4", "uint8-300", "named-uint32", "named-float64", "named-int", "duration", "named-string", "named-bool", "pointer-to-int"}
 	n := c.pick(50000, 500000)
